@@ -327,6 +327,38 @@ package rtp
 //@   ensures len(h265dp.fragments) == 0 && h265OK(h265dp) && h265FuInv(h265dp)
 //@   ensures len(ghostSeq(h265dp.w, "emitted")) == old(len(ghostSeq(h265dp.w, "emitted")))
 
+// ---- H.265 FU: a completed unit of ANY number of fragments (the list at entry followed by the end fragment p) ---------
+//@ spec func fu5D(p *Packet) int = len(p.Data) - p.PayloadOffset - 3
+//@ spec func fu5N(dp *h265Depacketizer) int = len(dp.fragments) + 1
+//@ spec func fu5Dk(dp *h265Depacketizer, p *Packet, k int) int = iteInt(k == fu5N(dp) - 1, fu5D(p), fu5D(dp.fragments[k]))
+//@ spec func fu5Rest(dp *h265Depacketizer, p *Packet, k int) int = rec iteInt(k < 0 || k >= fu5N(dp), 0, fu5Dk(dp, p, k) + fu5Rest(dp, p, k+1))
+//@ spec func fu5Pre(dp *h265Depacketizer, p *Packet) bool = h265OK(dp) && videoPacket(p) && payloadLen(p) >= 3 && len(dp.fragments) < 1<<20
+//@ lemma func fu5RestBound(dp *h265Depacketizer, p *Packet, k int) bool = fu5Pre(dp, p) && 0 <= k && k <= fu5N(dp) ==> 0 <= fu5Rest(dp, p, k) && fu5Rest(dp, p, k) <= (fu5N(dp) - k) << 16
+//@   induction down from fu5N(dp)
+// an end fragment that completes a unit hands exactly one frame to writeFrame: 2 header bytes reconstructed from the
+// payload header and the FU type, then room for exactly the data bytes (payload minus the 3 FU bytes) of every
+// fragment, each copied inside the frame at the running offset; the list is cleared
+//@ func (h265dp *h265Depacketizer) depacketizeFu(packet *Packet) (err error)
+//@   variant end-complete
+//@   requires fu5Pre(h265dp, packet) && h265FuInv(h265dp) && fu5E(packet) && !fu5S(packet) && len(h265dp.fragments) > 0 && h265dp.fragments[len(h265dp.fragments)-1].SequenceNumber + 1 == packet.SequenceNumber
+//@   modifies h265dp.fragments, h265dp.fragments[:cap(h265dp.fragments)], h265dp.meta.Vps, h265dp.meta.Sps, h265dp.meta.Pps, h265dp.meta.Width, h265dp.meta.Height, h265dp.meta.FixedFrameRate, h265dp.meta.FrameRate, h265dp.metaReady, h265dp.dtsStep, h265dp.nextDts, ghostSeq(h265dp.w, "emitted")
+//@   local frame *codec.Frame
+//@   local frameLen, offset, rangeindex int
+//@   loop 0: modifies
+//@   loop 0: uselemma fu5RestBound(h265dp, packet)
+//@   loop 0: invariant -1 <= rangeindex && rangeindex < len(h265dp.fragments) && len(h265dp.fragments) == old(fu5N(h265dp)) && h265dp == old(h265dp)
+//@   loop 0: invariant forall(k, 0, len(h265dp.fragments), h265dp.fragments[k] != nil && videoPacket(h265dp.fragments[k]) && payloadLen(h265dp.fragments[k]) >= 3 && fu5D(h265dp.fragments[k]) == old(fu5Dk(h265dp, packet, k)))
+//@   loop 0: invariant frameLen + fu5Rest(h265dp, packet, rangeindex+1) == 2 + fu5Rest(h265dp, packet, 0)
+//@   loop 1: modifies frame.Payload[:]
+//@   loop 1: uselemma fu5RestBound(h265dp, packet)
+//@   loop 1: invariant -1 <= rangeindex && rangeindex < len(h265dp.fragments) && len(h265dp.fragments) == old(fu5N(h265dp)) && h265dp == old(h265dp) && frame != nil && len(frame.Payload) == 2 + fu5Rest(h265dp, packet, 0)
+//@   loop 1: invariant offset + fu5Rest(h265dp, packet, rangeindex+1) == len(frame.Payload) && 2 <= offset
+//@   loop 1: invariant frame.Payload[0] == (packet.Data[packet.PayloadOffset] & 0x81) | (packet.Data[packet.PayloadOffset+2] & 0x3f) << 1 && frame.Payload[1] == packet.Data[packet.PayloadOffset+1]
+//@   assert[call:writeFrame] len(frame.Payload) == 2 + fu5Rest(h265dp, packet, 0)
+//@   assert[call:writeFrame] frame.Payload[0] == (packet.Data[packet.PayloadOffset] & 0x81) | (packet.Data[packet.PayloadOffset+2] & 0x3f) << 1 && frame.Payload[1] == packet.Data[packet.PayloadOffset+1]
+//@   ensures len(h265dp.fragments) == 0 && h265OK(h265dp) && h265FuInv(h265dp)
+//@   ensures len(ghostSeq(h265dp.w, "emitted")) <= old(len(ghostSeq(h265dp.w, "emitted"))) + 1
+
 //@ func (h265dp *h265Depacketizer) Depacketize(packet *Packet) (err error)
 //@   requires h265OK(h265dp) && h265FuInv(h265dp) && videoPacket(packet)
 //@   modifies h265dp.fragments, h265dp.fragments[:cap(h265dp.fragments)], h265dp.meta.Vps, h265dp.meta.Sps, h265dp.meta.Pps, h265dp.meta.Width, h265dp.meta.Height, h265dp.meta.FixedFrameRate, h265dp.meta.FrameRate, h265dp.metaReady, h265dp.dtsStep, h265dp.nextDts, ghostSeq(h265dp.w, "emitted")
